@@ -154,13 +154,14 @@ def run(seed, shard, ngroups, exe, corpus):
     if corpus and shard == 0:
         for c in json.load(open(corpus)):
             groups.append({"kind": "corpus", "lang": c["lang"], "dns": c["dns"], "spellings": [c["title"]], "expect": None})
+    groups.extend(gen.sweep())
     for _ in range(ngroups):
         groups.append(gen.group())
     evals = []       # (lang, dns, title, real result)
     hits = []
     digests = set()
     n_eval = 0
-    dist = {"ns": 0, "plain": 0, "wild": 0, "foreign": 0, "corpus": 0, "spellings": 0, "reeval": 0, "exc": 0, "found_ns": 0, "main_ns": 0,
+    dist = {"ns": 0, "plain": 0, "wild": 0, "foreign": 0, "sweep_own": 0, "sweep_foreign": 0, "corpus": 0, "spellings": 0, "reeval": 0, "exc": 0, "found_ns": 0, "main_ns": 0,
             "len_sum": 0, "non_bmp": 0, "with_marks": 0, "lead_colon": 0, "judged_by_site_reference": 0, "space_runs_ge3": 0,
             "handlers_created": 0, "handlers_by_pickle": 0}
     samples = []
@@ -338,6 +339,11 @@ def shrink_title(c, kinds):
                 if cand != t and bad(cand, dns):
                     t = cand
                     break
+    for i, ch in enumerate(t):
+        if ch.isalnum() and ch != "a":
+            cand = t[:i] + "a" + t[i + 1:]
+            if bad(cand, dns):
+                t = cand
     probs = bad(t, dns)
     return {"title": t, "dns": dns, "kind": probs[0][0], "detail": probs[0][1]}
 
